@@ -2115,9 +2115,16 @@ class SpaceUpdater(SharedSpaceOperations):
 
         if self.manager._can_add(
             parent, name, EditableParentImpl):
-            return self._copy_space_recursively(
-                parent, source, name, defined_only
-            )
+            try:
+                return self._copy_space_recursively(
+                    parent, source, name, defined_only
+                )
+            except BaseException:
+                # Not a half-made copy left behind
+                if name in parent.named_spaces:
+                    self.model.updater.del_defined_space(
+                        parent.named_spaces[name])
+                raise
         else:
             raise ValueError("Cannot create space '%s'" % name)
 
